@@ -26,8 +26,8 @@ def replay(payload):
 
 
 # ----------------------------------------------------------------------------- worker side (runner/entrypoint.py wait loop)
-LEAN_PROPS = ["EkwVerif.Props.C02", "EkwVerif.Props.C02Worker"]
-LEAN_DRIVERS = ["Ctrl", "C02W"]
+LEAN_PROPS = ["EkwVerif.Props.C02", "EkwVerif.Props.C02Worker", "EkwVerif.Props.C02Exec"]
+LEAN_DRIVERS = ["Ctrl", "C02W", "C02X"]
 
 
 class _Done(Exception):
@@ -37,30 +37,10 @@ class _Done(Exception):
 def _worker_job(rng):
     """small job: tasks t0..tn-1, each with 1-2 outputs and inputs from earlier tasks; returns (JobInstance, spec)"""
     from ekw import sim_ctrl as S
-    spec = S.gen_job(rng, 6, allow_gpu=False)
-    while not spec["tasks"]:
-        spec = S.gen_job(rng, 6, allow_gpu=False)
+    spec = S.gen_job(rng, 7, allow_gpu=False)
+    while len(spec["tasks"]) < 2:
+        spec = S.gen_job(rng, 7, allow_gpu=False)
     return S.build_job(spec), spec
-
-
-def _gen_worker_history(rng, spec):
-    """messages: ("task", [t...]) | ("pub", [t,k]) | ("purge", [t,k]) | ("shutdown",)"""
-    n = len(spec["tasks"])
-    allds = [[t, k] for t in range(n) for k in range(spec["tasks"][t]["nOut"])]
-    msgs = []
-    for _ in range(rng.randint(2, 14)):
-        r = rng.random()
-        if r < 0.3:
-            k = rng.randint(1, min(2, n))
-            ts = sorted(rng.sample(range(n), k))
-            msgs.append(("task", ts))
-        elif r < 0.85:
-            msgs.append(("pub", rng.choice(allds)))
-        elif r < 0.97:
-            msgs.append(("purge", rng.choice(allds)))
-        else:
-            msgs.append(("shutdown",))
-    return msgs
 
 
 def _required(spec, ts):
@@ -73,20 +53,84 @@ def _required(spec, ts):
     return [d for d in req if d not in own]
 
 
+def _gen_worker_history(rng, spec):
+    """Messages as one worker of a host sees them under controller traffic:
+    ("task", [t...], pub, fails) | ("pub", [t,k]) | ("purge", [t,k]) | ("shutdown",).
+    Task sequences of 1-4 tasks whose required datasets are announced before / after / around the command (the command
+    overtakes notices), notices of unrelated datasets and repeated notices, purges of datasets no waiting sequence needs
+    (and, rarely, of one it needs: the class excluded by c02_worker_avail_partial), a second command while one waits
+    (rare: the controller never does it), WorkerShutdown at any point incl. while a sequence waits."""
+    n = len(spec["tasks"])
+    allds = [[t, k] for t in range(n) for k in range(spec["tasks"][t]["nOut"])]
+    msgs = []
+    wild = rng.random() < 0.2
+    done = []
+    for _ in range(rng.randint(1, 3)):
+        first = rng.randrange(n)
+        seq = [first]
+        while len(seq) < 4 and rng.random() < 0.5:
+            cand = [u for u in range(seq[-1] + 1, n) if u not in seq]
+            if not cand:
+                break
+            seq.append(rng.choice(cand))
+        req = _required(spec, seq)
+        outs = [[t, k] for t in seq for k in range(spec["tasks"][t]["nOut"])]
+        pub = sorted(d for d in outs if rng.random() < 0.7) or [outs[0]]
+        fails = sorted(t for t in seq if rng.random() < 0.12)
+        before, after = [], []
+        for d in req:
+            r = rng.random()
+            (before if r < 0.45 else after).append(d)
+        body = [("pub", d) for d in before]
+        rng.shuffle(body)
+        tail = [("pub", d) for d in after]
+        rng.shuffle(tail)
+        noise = []
+        for _ in range(rng.randint(0, 4)):
+            r = rng.random()
+            free = [d for d in allds if d not in req]
+            if wild and req and r < 0.3:
+                noise.append(("purge", rng.choice(req)))                # an input of the waiting sequence is purged
+            elif r < 0.5 and free:
+                noise.append(("pub", rng.choice(free)))
+            elif r < 0.8 and free:
+                noise.append(("purge", rng.choice(free)))
+            elif r < 0.9 and (before or after):
+                noise.append(("pub", rng.choice(before + after)))       # a repeated notice
+        block = body + [("task", seq, pub, fails)] + tail
+        for x in noise:
+            block.insert(rng.randrange(len(block) + 1), x)
+        if wild and rng.random() < 0.3:
+            block.insert(rng.randrange(len(block) + 1), ("task", [rng.randrange(n)], [], []))
+        msgs += block
+        # purges of what the finished sequence consumed (what the controller does after completion)
+        for d in req:
+            if rng.random() < 0.4:
+                msgs.append(("purge", d))
+        done.append(seq)
+    if rng.random() < 0.3:
+        msgs.insert(rng.randrange(len(msgs) + 1), ("shutdown",))
+    return msgs[:40]
+
+
 def run_worker_real(job, spec, msgs):
-    """drive the REAL entrypoint() in-process; returns one canonical output per message"""
+    """Drive the REAL entrypoint() loop with the REAL execute_sequence in-process (fake zmq, recording Memory, a `run`
+    that records and raises for the tasks flagged as failing). Returns per message: what the loop did (canonical outcome,
+    the memory.provide / memory.pop calls, the tasks run, a reported TaskFailure) and availab_ds / missing_ds / waiting_ts
+    as they are when the loop asks for the next message."""
+    import sys
     import types
     from ekw import sim_ctrl as S_
     import cascade.executor.runner.entrypoint as ep
     import cascade.executor.serde as serde
-    from cascade.executor.msg import DatasetPublished, DatasetPurge, TaskSequence, WorkerShutdown
-    from cascade.low.core import DatasetId, WorkerId
+    from cascade.executor.msg import DatasetPublished, DatasetPurge, TaskFailure, TaskSequence, WorkerShutdown
+    from cascade.low.core import WorkerId
     from cascade.low.views import param_source
     wid = WorkerId("h0", "w0")
-    raw = []
-    for m in msgs:
+    raw, failing = [], {}
+    for i, m in enumerate(msgs):
         if m[0] == "task":
-            raw.append(serde.ser_message(TaskSequence(worker=wid, tasks=[f"t{t}" for t in m[1]], publish=set())))
+            raw.append(serde.ser_message(TaskSequence(worker=wid, tasks=[f"t{t}" for t in m[1]], publish={S_.dsid(d) for d in m[2]})))
         elif m[0] == "pub":
             raw.append(serde.ser_message(DatasetPublished(origin=wid, ds=S_.dsid(m[1]), transmit_idx=None)))
         elif m[0] == "purge":
@@ -94,15 +138,24 @@ def run_worker_real(job, spec, msgs):
         else:
             raw.append(serde.ser_message(WorkerShutdown()))
     record = []
+    cur_fail = [set()]
+    sent = [0]
 
     class Sock:
         def bind(self, a):
             pass
 
         def recv(self):
+            loc = sys._getframe(1).f_locals
+            wt = loc.get("waiting_ts")
+            record.append(("state", sorted(S_.un_ds(d) for d in loc.get("availab_ds", ())), sorted(S_.un_ds(d) for d in loc.get("missing_ds", ())),
+                           None if wt is None else [int(t[1:]) for t in wt.tasks]))
             record.append(("recv",))
             if not raw:
                 raise _Done()
+            i = sent[0]
+            sent[0] += 1
+            cur_fail[0] = set(msgs[i][3]) if msgs[i][0] == "task" else cur_fail[0]
             return raw.pop(0)
 
     class Ctx:
@@ -126,23 +179,45 @@ def run_worker_real(job, spec, msgs):
             record.append(("pop", S_.un_ds(ds)))
 
         def flush(self):
-            pass
+            record.append(("flush",))
 
-    class Pk:
-        def __enter__(self):
-            return self
+    def fake_run(task_id, execution_context, memory):
+        t = int(task_id[1:])
+        record.append(("run", t, sorted(S_.un_ds(d) for d in execution_context.publish)))
+        if t in failing_now():
+            raise RuntimeError(f"task {task_id} fails")
 
-        def __exit__(self, *a):
-            return False
+    def failing_now():
+        return cur_seq_fail[0]
 
-        def extend(self, l):
-            pass
+    cur_seq_fail = [set()]
+    real_exec = ep.execute_sequence
 
-    saved = (ep.zmq, ep.callback, ep.Memory, ep.PackagesEnv, ep.execute_sequence, ep.logging_config)
+    def exec_wrapper(ts, memory, pckg, rc):
+        tasks = [int(t[1:]) for t in ts.tasks]
+        record.append(("exec", tasks))
+        # which flags belong to this sequence: the task message with these tasks that was delivered last
+        for m in reversed(msgs[:sent[0]]):
+            if m[0] == "task" and m[1] == tasks:
+                cur_seq_fail[0] = set(m[3])
+                break
+        return real_exec(ts, memory, pckg, rc)
+
+    def cb(addr, msg):
+        if isinstance(msg, TaskFailure):
+            record.append(("taskfail", None if msg.task is None else int(msg.task[1:])))
+
+    saved = (ep.zmq, ep.callback, ep.Memory, ep.execute_sequence, ep.logging_config, ep.run, ep.label)
+    env = os.environ.get("CUDA_VISIBLE_DEVICES")
+    import logging
+    dis = logging.root.manager.disable
+    logging.disable(logging.CRITICAL)
     ep.zmq = types.SimpleNamespace(Context=Ctx, PULL=0)
-    ep.callback = lambda addr, msg: None
-    ep.Memory, ep.PackagesEnv = Mem, Pk
-    ep.execute_sequence = lambda ts, mem, pk, rc: record.append(("exec", [int(t[1:]) for t in ts.tasks]))
+    ep.callback = cb
+    ep.Memory = Mem
+    ep.execute_sequence = exec_wrapper
+    ep.run = fake_run
+    ep.label = lambda *a, **k: None
     ep.logging_config = {"version": 1, "disable_existing_loggers": False}
     try:
         rc = ep.RunnerContext(workerId=wid, job=job, callback="cb", param_source=param_source(job.edges))
@@ -154,8 +229,14 @@ def run_worker_real(job, spec, msgs):
         except Exception as e:
             record.append(("raised", f"{type(e).__name__}: {e}"[:60]))
     finally:
-        ep.zmq, ep.callback, ep.Memory, ep.PackagesEnv, ep.execute_sequence, ep.logging_config = saved
-    # segment per message
+        ep.zmq, ep.callback, ep.Memory, ep.execute_sequence, ep.logging_config, ep.run, ep.label = saved
+        logging.disable(dis)
+        if env is None:
+            os.environ.pop("CUDA_VISIBLE_DEVICES", None)
+        else:
+            os.environ["CUDA_VISIBLE_DEVICES"] = env
+    # segment per message: everything between the recv that delivered message i and the next recv (whose preceding
+    # "state" record is the state after message i)
     segs, cur = [], None
     for r in record:
         if r[0] == "recv":
@@ -169,25 +250,122 @@ def run_worker_real(job, spec, msgs):
     outs = []
     for seg in segs[:len(msgs)]:
         kinds = [r[0] for r in seg]
+        st = [r for r in seg if r[0] == "state"]
+        o = {"provides": sorted(r[1] for r in seg if r[0] == "provide"), "pops": [r[1] for r in seg if r[0] == "pop"],
+             "ran": [r[1] for r in seg if r[0] == "run"], "taskfail": [r[1] for r in seg if r[0] == "taskfail"],
+             "flushed": kinds.count("flush"),
+             "state": None if not st else {"avail": st[-1][1], "missing": st[-1][2], "waiting": st[-1][3]}}
         if "raised" in kinds:
-            outs.append({"out": "raised"})
+            o["out"] = "raised"
         elif "exec" in kinds:
-            outs.append({"out": "executed", "tasks": [r for r in seg if r[0] == "exec"][0][1]})
+            o["out"] = "executed"
+            o["tasks"] = [r for r in seg if r[0] == "exec"][0][1]
         elif "returned" in kinds:
-            outs.append({"out": "stop"})
+            o["out"] = "stop"
         elif "provide" in kinds:
-            outs.append({"out": "provided", "ds": sorted(r[1] for r in seg if r[0] == "provide")})
+            o["out"] = "provided"
         else:
-            outs.append({"out": "nothing"})
+            o["out"] = "nothing"
+        outs.append(o)
     return outs
+
+
+import os   # noqa: E402
+
+# Props/C02Worker.lean `c02_worker_avail_full_fails`: a required dataset is purged while its sequence waits
+_WITNESS_SPEC = {"tasks": [{"nOut": 1, "gpu": False, "params": []}, {"nOut": 1, "gpu": False, "params": []},
+                           {"nOut": 1, "gpu": False, "params": [[0, 0], [1, 0]]}], "ext": []}
+_WITNESS_MSGS = [("task", [2], [[2, 0]], []), ("pub", [0, 0]), ("purge", [0, 0]), ("pub", [1, 0])]
+
+
+def _worker_oracle(ctx, spec, msgs, real):
+    """From the property text (nothing of the model): a sequence is executed only after every dataset it requires was
+    announced to this worker; and, when no required dataset of a waiting sequence is purged while it waits, every required
+    dataset is announced-and-not-purged-since at that moment. Failure path: a failing task ends its sequence with ONE
+    TaskFailure for that task, later tasks of the sequence do not run, and the loop goes on."""
+    announced, live = [], []
+    waiting = None
+    clean = True
+    for i, (m, o) in enumerate(zip(msgs, real)):
+        if m[0] == "pub":
+            if m[1] not in announced:
+                announced.append(m[1])
+            if m[1] not in live:
+                live.append(m[1])
+        elif m[0] == "purge":
+            if waiting is not None and m[1] in _required(spec, waiting):
+                clean = False
+            if m[1] in live:
+                live.remove(m[1])
+        if o["out"] == "executed":
+            req = _required(spec, o["tasks"])
+            for d in req:
+                if d not in announced:
+                    ctx.violation({"kind": "worker-started-before-input-announced"}, {"spec": spec, "msgs": [list(x) for x in msgs[:i + 1]]},
+                                  f"worker entered execute_sequence for tasks {o['tasks']} although dataset {d} was never announced to it")
+                elif clean and d not in live:
+                    ctx.violation({"kind": "worker-started-with-purged-input"}, {"spec": spec, "msgs": [list(x) for x in msgs[:i + 1]]},
+                                  f"worker entered execute_sequence for tasks {o['tasks']} although dataset {d} had been purged after its notice "
+                                  f"(and not while the sequence was waiting)")
+            flags = []
+            for mm in reversed(msgs[:i + 1]):
+                if mm[0] == "task" and mm[1] == o["tasks"]:
+                    flags = mm[3]
+                    break
+            exp_ran, exp_fail = [], []
+            for t in o["tasks"]:
+                exp_ran.append(t)
+                if t in flags:
+                    exp_fail = [t]
+                    break
+            if o["ran"] != exp_ran or o["taskfail"] != exp_fail or o["flushed"] != (0 if exp_fail else 1):
+                ctx.violation({"kind": "worker-failure-path"}, {"spec": spec, "msgs": [list(x) for x in msgs[:i + 1]]},
+                              f"sequence {o['tasks']} with failing tasks {flags}: ran {o['ran']}, TaskFailure for {o['taskfail']}, "
+                              f"flush x{o['flushed']}; expected ran {exp_ran}, TaskFailure {exp_fail}")
+            waiting = None
+        elif m[0] == "task" and o["out"] in ("provided", "nothing") and waiting is None:
+            waiting = m[1]
+        if o["out"] in ("raised", "stop"):
+            break
+    return clean
+
+
+def _model_lines(spec, msgs):
+    import json
+    ids = {}
+    ml = [json.dumps({"op": "reset"})]
+    for i, m in enumerate(msgs):
+        if m[0] == "task":
+            ids[i] = m[1]
+            ml.append(json.dumps({"op": "task", "id": i, "req": _required(spec, m[1])}))
+        elif m[0] == "pub":
+            ml.append(json.dumps({"op": "pub", "ds": m[1]}))
+        elif m[0] == "purge":
+            ml.append(json.dumps({"op": "purge", "ds": m[1]}))
+        else:
+            ml.append(json.dumps({"op": "shutdown"}))
+    return ml, ids
 
 
 def correspond_worker(ctx):
     import json
     import random
+    from ekw import sim_ctrl as S
     from ekw.core import lean_drive
-    n = ctx.budget(150, 5000)
+    n = ctx.budget(220, 6000)
     lines, cases = [], []
+    # the decided witness of c02_worker_avail_full_fails on the real entrypoint
+    wjob = S.build_job(_WITNESS_SPEC)
+    wreal = run_worker_real(wjob, _WITNESS_SPEC, _WITNESS_MSGS)
+    ok = (len(wreal) == 4 and wreal[3]["out"] == "executed" and wreal[3]["tasks"] == [2] and wreal[3]["state"] is not None
+          and [0, 0] not in wreal[3]["state"]["avail"] and wreal[2]["pops"] == [[0, 0]])
+    ctx.count("worker:witness_purged_input_reproduced" if ok else "worker:witness_purged_input_NOT_reproduced")
+    if not ok:
+        ctx.disagree("worker-witness", {"spec": _WITNESS_SPEC, "msgs": [list(x) for x in _WITNESS_MSGS]},
+                     "c02_worker_avail_full_fails: the sequence is executed with (0,0) purged (missing_ds is not updated by a purge)", wreal)
+    ml, ids = _model_lines(_WITNESS_SPEC, _WITNESS_MSGS)
+    lines += ml
+    cases.append((_WITNESS_SPEC, _WITNESS_MSGS, wreal, ids))
     for _ in range(n):
         seed = ctx.rng.randrange(1 << 30)
         rng = random.Random(seed)
@@ -196,37 +374,25 @@ def correspond_worker(ctx):
         try:
             real = run_worker_real(job, spec, msgs)
         except Exception as e:   # harness-level trouble with the real entrypoint is a disagreement, not a crash
-            ctx.disagree("worker-entrypoint-drive", {"spec": spec, "msgs": msgs}, "drivable", f"{type(e).__name__}: {e}")
+            ctx.disagree("worker-entrypoint-drive", {"spec": spec, "msgs": [list(x) for x in msgs]}, "drivable", f"{type(e).__name__}: {e}")
             continue
-        ids = {}
-        ml = [json.dumps({"op": "reset"})]
-        for i, m in enumerate(msgs):
-            if m[0] == "task":
-                ids[i] = m[1]
-                ml.append(json.dumps({"op": "task", "id": i, "req": _required(spec, m[1])}))
-            elif m[0] == "pub":
-                ml.append(json.dumps({"op": "pub", "ds": m[1]}))
-            elif m[0] == "purge":
-                ml.append(json.dumps({"op": "purge", "ds": m[1]}))
-            else:
-                ml.append(json.dumps({"op": "shutdown"}))
+        ml, ids = _model_lines(spec, msgs)
         lines += ml
         cases.append((spec, msgs, real, ids))
-        waits = any(o["out"] == "provided" for o in real)
-        ctx.case({"worker_history": msgs, "tasks": len(spec["tasks"])}, nontrivial=waits)
+        waits = any(o["out"] == "provided" or (o["state"] and o["state"]["waiting"] is not None) for o in real)
+        ctx.case({"worker_history": [list(x) for x in msgs], "tasks": len(spec["tasks"])}, nontrivial=waits)
         ctx.count("worker_histories")
-        for o in real:
+        for m, o in zip(msgs, real):
             ctx.count("worker_out:" + o["out"])
-        # oracle (property text): execution only after every required dataset has been announced to this worker
-        seen = []
-        for i, (m, o) in enumerate(zip(msgs, real)):
-            if m[0] == "pub" and m[1] not in seen:
-                seen.append(m[1])
             if o["out"] == "executed":
-                for d in _required(spec, o["tasks"]):
-                    if d not in seen:
-                        ctx.violation({"kind": "worker-started-before-input-announced"}, {"spec": spec, "msgs": msgs[:i + 1]},
-                                      f"worker entered execute_sequence for tasks {o['tasks']} although dataset {d} was never announced to it")
+                ctx.count("worker:seq_len:%d" % len(o["tasks"]))
+                ctx.count("worker:exec_" + ("with_failure" if o["taskfail"] else "ok"))
+            if o["out"] == "stop":
+                ctx.count("worker:shutdown_" + ("while_waiting" if any(x["state"] and x["state"]["waiting"] for x in real[max(0, real.index(o) - 1):real.index(o)]) else "idle"))
+            if o["pops"]:
+                ctx.count("worker:pop_calls")
+        clean = _worker_oracle(ctx, spec, msgs, real)
+        ctx.count("worker:history_" + ("no_purge_while_waiting" if clean else "purges_a_waited_input"))
     out = lean_drive("C02W", lines)
     k = 0
     for spec, msgs, real, ids in cases:
@@ -234,20 +400,31 @@ def correspond_worker(ctx):
         mo = [json.loads(x) for x in out[k:k + len(msgs)]]
         k += len(msgs)
         ctx.traces += 1
-        dead = False
         for i, (m, r) in enumerate(zip(msgs, real)):
             o = mo[i]
             if o.get("out") == "dead":
                 break
+            st = {"avail": sorted(o["avail"]), "missing": sorted(o["missing"]), "waiting": ids.get(o["waiting"]) if o["waiting"] is not None else None}
             o = o["o"]
+            want = {"out": o["out"]}
             if o["out"] == "executed":
-                want = {"out": "executed", "tasks": ids.get(o["id"])}
+                want["tasks"] = ids.get(o["id"])
+                want["provides"] = [m[1]] if m[0] == "pub" else []
             elif o["out"] == "provided":
-                want = {"out": "provided", "ds": sorted(o["ds"])} if o["ds"] else {"out": "nothing"}
+                want["provides"] = sorted(o["ds"])
+                if not o["ds"]:
+                    want["out"] = "nothing"
             else:
-                want = {"out": o["out"]}
-            if want != r:
-                ctx.disagree("worker-wait-loop", {"spec": spec, "msgs": msgs[:i + 1]}, want, r)
+                want["provides"] = []
+            want["pops"] = [m[1]] if m[0] == "purge" and o["out"] == "nothing" else []
+            got = {"out": r["out"], "provides": r["provides"], "pops": r["pops"]}
+            if r["out"] == "executed":
+                got["tasks"] = r["tasks"]
+            if r["out"] not in ("raised", "stop"):
+                want["state"] = st
+                got["state"] = r["state"]
+            if want != got:
+                ctx.disagree("worker-wait-loop", {"spec": spec, "msgs": [list(x) for x in msgs[:i + 1]]}, want, got)
                 break
             if r["out"] in ("raised", "stop"):
                 break
@@ -257,5 +434,37 @@ _ctrl_correspond = correspond
 
 
 def correspond(ctx):   # noqa: F811
+    from ekw import c02_exec
     _ctrl_correspond(ctx)
     correspond_worker(ctx)
+    c02_exec.correspond(ctx)          # executor layer (clause (g)) and its GPU facts
+
+
+_ctrl_replay = replay
+
+
+def replay(payload):   # noqa: F811
+    case = payload.get("case") or {}
+    if isinstance(case, dict) and ("exec_layer" in case or "gpu_host" in case):
+        from ekw import c02_exec
+        return c02_exec.replay(payload)
+    if isinstance(case, dict) and "msgs" in case:
+        import json
+        from ekw import sim_ctrl as S
+        msgs = [tuple(x) for x in case["msgs"]]
+        real = run_worker_real(S.build_job(case["spec"]), case["spec"], msgs)
+        for m, o in zip(msgs, real):
+            print(json.dumps(list(m)), "->", json.dumps(o))
+
+        class _C:
+            def __init__(self):
+                self.v = []
+
+            def violation(self, sig, c, what):
+                self.v.append((sig, what))
+        c = _C()
+        _worker_oracle(c, case["spec"], msgs, real)
+        for sig, what in c.v:
+            print("FINDING", sig, what)
+        return 1 if c.v else 0
+    return _ctrl_replay(payload)
